@@ -272,6 +272,9 @@ def rule_R8_R11_shape(text):
     return text, n + k
 
 
+R13_SLICE_VARS = set()
+
+
 def rule_R13_desugar(text):
     """R13 (opt-in, `//@ desugar`): `for (I, E) in X.iter_mut().enumerate() { B }` and `for E in X.iter_mut() { B }` become the
     index loop they abbreviate: `let mut verif_k = 0; while verif_k < X.len() { let I = verif_k; let E = &mut X[verif_k]; B verif_k += 1; }`.
@@ -292,17 +295,24 @@ def rule_R13_desugar(text):
             if z and len(names) == 2:
                 hit = (mt.start(), bo, z.group(1), names[0], names[1])
                 break
-            z = re.fullmatch(r'(.+?)\.iter_mut\(\)', hdr)
+            z = re.fullmatch(r'(.+?)\.iter_mut\(\)', hdr) or re.fullmatch(r'&mut (\w+)', hdr)
             if z and len(names) == 1:
                 hit = (mt.start(), bo, z.group(1), None, names[0])
                 break
+            # `for e in slice_var` (by-value iteration of a `&mut [T]` / `&[T]` binding): the elements are only read in the bodies
+            # this rule is applied to; a body that assigns through `e` no longer type-checks (-> INCONCLUSIVE)
+            z = re.fullmatch(r'(\w+)', hdr)
+            if z and len(names) == 1 and z.group(1) in R13_SLICE_VARS:
+                hit = (mt.start(), bo, z.group(1), None, names[0], 'shared')
+                break
         if not hit:
             break
-        a, bo, x, iv, ev = hit
+        shared = len(hit) > 5
+        a, bo, x, iv, ev = hit[:5]
         bc = rsscan.match_close(m, bo)
         k = 'verif_k%d' % n
         head = 'let mut %s: usize = 0; while %s < %s.len() /*@R13 %s.len() - %s @*/ ' % (k, k, x, x, k)
-        first = '{ ' + (('let %s = %s; ' % (iv, k)) if iv else '') + 'let %s = &mut %s[%s]; ' % (ev, x, k)
+        first = '{ ' + (('let %s = %s; ' % (iv, k)) if iv else '') + ('let %s = &%s[%s]; ' if shared else 'let %s = &mut %s[%s]; ') % (ev, x, k)
         body = text[bo + 1:bc]
         old = text[a:bc + 1]
         new = head + '\n' * text[a:bo].count('\n') + first + body + ' %s += 1; }' % k
@@ -473,6 +483,7 @@ class FnEdit:
         self.afterloops = {}
         self.attrs = []
         self.desugar = False
+        self.desugar_vars = []
         self.loadstore = []
 
 
@@ -652,6 +663,7 @@ class Generator:
                     e.shape = True
                 elif c == 'desugar':
                     e.desugar = True
+                    e.desugar_vars = tok[1:]
                 elif c == 'loadstore':
                     e.loadstore = tok[1:]
                 elif c == 'attr':
@@ -831,6 +843,8 @@ class Generator:
                 self._count('R2b', k)
                 self.log.append({'rule': 'R2b', 'fn': path, 'count': k})
         if edit.desugar:
+            R13_SLICE_VARS.clear()
+            R13_SLICE_VARS.update(edit.desugar_vars)
             text, k = rule_R13_desugar(text)
             text, k2 = rule_R13b_chunks(text)
             if k + k2:
